@@ -154,3 +154,45 @@ Definition tab_cost (t : list Q) (l n : nat) : Q := nth l t 0 + inject_Z (Z.of_n
 Definition tab_alloc (t : list (list Z)) (k : nat) : list Z := nth k t [].
 Definition tab_conv (t : list bool) (j : nat) : bool := nth j t true.
 Definition const_garbage (l n : nat) : row := (7 # 3, 5 # 3).
+
+(* -------------------------------------------------------------------- helpers of the vm_compute correspondence *)
+Definition run_tab (phantom : nat) (samples : list (list (Q * Q))) (ctab : list Q) (atab : list (list Z))
+           (vtab : list bool) (df notional : Q) (level_max fuel L0 N0 : nat) : outcome state :=
+  price_run (tab_sample samples) (tab_cost ctab) (tab_alloc atab) (tab_conv vtab) const_garbage
+            df notional level_max phantom fuel L0 N0.
+
+Definition out_tag (o : outcome state) : Z :=
+  match o with Converged _ => 0%Z | Fallthrough _ => 1%Z | OutOfFuel => 2%Z end.
+Definition out_levels (o : outcome state) : list lev :=
+  match o with Converged s | Fallthrough s => levels s | OutOfFuel => [] end.
+
+Definition row_eqb (a b : row) : bool := Qeq_bool (fst a) (fst b) && Qeq_bool (snd a) (snd b).
+Fixpoint rows_eqb (a b : list row) : bool :=
+  match a, b with
+  | [], [] => true
+  | x :: a', y :: b' => row_eqb x y && rows_eqb a' b'
+  | _, _ => false
+  end.
+Fixpoint all2 {A B : Type} (f : A -> B -> bool) (a : list A) (b : list B) : bool :=
+  match a, b with
+  | [], [] => true
+  | x :: a', y :: b' => f x y && all2 f a' b'
+  | _, _ => false
+  end.
+
+(* a level without samples has NaN statistics in numpy: such entries are reported as 0 on both sides *)
+Definition lev_field (f : lev -> Q) (v : lev) : Q := if Nat.eqb (lN v) 0 then 0 else f v.
+
+(* expected = (Nl, counts of simulated paths, rows of every level) *)
+Definition corr_rows (vs : list lev) (e : list Z * list Z * list (list row)) : bool :=
+  let '(Nl, cnts, rows) := e in
+  all2 (fun v n => Z.eqb (Z.of_nat (lN v)) n) vs Nl &&
+  all2 (fun v n => Z.eqb (Z.of_nat (lcnt v)) n) vs cnts &&
+  all2 (fun v r => rows_eqb (lrows v) r) vs rows.
+
+(* expected = (price, cost, [ml; vl; cl; mean_level_l; var_level_l; kurtosis]) *)
+Definition corr_results (tol : Q) (vs : list lev) (e : Q * Q * list (list Q)) : bool :=
+  let '(price, cst, fields) := e in
+  Qclose tol (mlmc_price vs) price && Qclose tol (res_cost vs) cst &&
+  all2 (fun f ex => Qclose_list tol (map (lev_field f) vs) ex)
+       [res_ml; res_vl; res_cl; res_mean_level; res_var_level; res_kurtosis] fields.
